@@ -32,7 +32,7 @@ ASSUMES = [
 CWD = "/tmp/probe"
 RANK = {"allow": 0, "ask": 1, "deny": 2}
 
-MODELLED = ["shell", "env", "xargs", "find", "fd", "arch", "caffeinate", "script"]
+MODELLED = ["shell", "env", "xargs", "find", "fd", "arch", "caffeinate", "script", "uvrun", "tar"]
 NONAPPROVABLE = {"rm", "foo", "mv", "chmod", "curl", "denied", "KILL", "FOO=1"}
 STUBS = ["ls", "cat", "git", "grep", "wc", "head", "rm", "foo", "mv", "chmod", "curl", "denied", "true"]
 REAL = ["env", "xargs", "find", "timeout", "nice", "nohup", "sh", "bash", "printf", "echo"]
@@ -59,6 +59,9 @@ VOCAB = {
     "fd": ["-x", "--exec", "-X", "--exec-batch", "-e", "py", "pattern", "-H"],
     "arch": ["-32", "-64", "-c", "-h", "-arch", "--arch", "-d", "-e", "-arm64", "-x86_64", "arm64", "VAR=1", "-foo"],
     "caffeinate": ["-d", "-i", "-m", "-s", "-u", "-t", "-w", "-disu", "-dx", "10", "-"],
+    "uvrun": ["run", "--python", "-p", "3.12", "--with", "pkg", "--project", ".", "-m", "--script", "--no-project", "--", "--env-file", ".env", "--with=x", "python", "-q"],
+    "tar": ["-tf", "a.tar", "-xf", "-czf", "tf", "xvf", "cf", "--list", "--extract", "--delete", "--to-command", "--to-command=cat", "--to-command=", "--use-compress-program=gzip", "--use-compress-program", "-I", "zstd", "-F", "--checkpoint-action=exec=x",
+            "--rsh-command=ssh", "--info-script", "-C", "/tmp", "-v", "--get", "--append", "-r", "-u", "-tvf", "-O", "--to-command=rm x", "ls", "--create"],
     "script": ["-t", "-T", "-a", "-d", "-e", "-F", "-k", "-p", "-q", "-r", "-ap", "--foo", "out.txt", "/dev/null", "--p"],
 }
 
@@ -121,13 +124,15 @@ def corr_handlers(model, r, n):
     from dippy.cli import HandlerContext
 
     acc = CC.Acc("launcher handlers' classify() vs Lean models")
-    mods = {m: importlib.import_module("dippy.cli." + m) for m in MODELLED}
+    mods = {m: importlib.import_module("dippy.cli." + {"uvrun": "uv"}.get(m, m)) for m in MODELLED}
     items = []
     for _ in range(n):
         m = r.pick(MODELLED)
         base = r.pick(mods[m].COMMANDS)
         voc = VOCAB[m] + VOCAB_COMMON
         toks = [base] + [r.pick(voc) if r.chance(0.9) else gen_string(r) for _ in range(r.randint(0, 7))]
+        if m == "uvrun":
+            toks = ["uv", "run"] + toks[1:]  # only the `run` action is modelled
         if has_surrogate("".join(toks)):
             continue
         items.append((m, toks))
